@@ -161,7 +161,8 @@ def gen_decision(rng):
             'debug_logging': rng.random() < 0.3,
             'lenient_transport': rng.random() < 0.4,
             'ctx_steps': gen_ctx_steps(rng, roles_u)
-            if rng.random() < 0.25 else None}
+            if rng.random() < 0.25 else None,
+            'seq': None}
 
 
 def gen_ctx_steps(rng, roles_u):
@@ -181,6 +182,43 @@ def gen_ctx_steps(rng, roles_u):
     return steps
 
 
+def gen_seq(rng, clean):
+    """Several enforce() calls on ONE enforcer: a fault that comes and
+    goes, options changed on the live conf between calls."""
+    urls = sorted(clean['peers'])
+    seq = [{}]
+    for _ in range(rng.randint(1, 3)):
+        r = rng.random()
+        if r < 0.55:
+            u = rng.choice(urls)
+            b = copy.deepcopy(clean['peers'][u])
+            f = rng.choice(NET_FAULTS)
+            if f == 'slow_connect':
+                b['connect_latency'] = 1e6
+            elif f == 'slow_read':
+                b['latency'] = 1e6
+            elif f == 'stall':
+                b['latency'] = 'stall'
+            else:
+                b['fault'] = f
+            seq.append({'peers': {u: b}})
+            seq.append({'peers': {u: copy.deepcopy(clean['peers'][u])}})
+        elif r < 0.75:
+            seq.append({'options': {'content_type': rng.choice(
+                [CT_FORM, CT_JSON])}})
+        elif r < 0.9:
+            what = rng.choice(('crt', 'key'))
+            seq.append({'options': {'tls': {what: rng.choice(
+                ('missing', 'unreadable', 'ok', None))}}})
+            seq.append({'options': {'tls': {what: 'ok'}}})
+        else:
+            u = rng.choice(urls)
+            b = copy.deepcopy(clean['peers'][u])
+            b['body'] = rng.choice(BODIES[:8])
+            seq.append({'peers': {u: b}})
+    return seq
+
+
 def variants(base, rng):
     out = []
     urls = sorted(base['peers'])
@@ -198,7 +236,13 @@ def variants(base, rng):
         if clean['tls'][tlsk] not in (None, 'ok'):
             clean['tls'][tlsk] = 'ok'
     clean['variant'] = 'fault-free'
+    clean['ctx_steps'] = None
     out.append(clean)
+    for j in range(2):
+        d = copy.deepcopy(clean)
+        d['seq'] = gen_seq(rng, clean)
+        d['variant'] = 'sequence-%d' % j
+        out.append(d)
     for start, tag in ((clean, 'solo'), (base, 'stacked')):
         for u in urls:
             for f in NET_FAULTS:
@@ -341,21 +385,37 @@ def run_decision(d, dg=None, cnt=None):
                           group='oslo_policy')
         conf.set_override('remote_content_type', d['content_type'],
                           group='oslo_policy')
-        tls = d['tls']
-        for key, opt, fn in (
-                ('crt', 'remote_ssl_client_crt_file', TLS_DIR + '/c.crt'),
-                ('key', 'remote_ssl_client_key_file', TLS_DIR + '/c.key'),
-                ('ca', 'remote_ssl_ca_crt_file', TLS_DIR + '/ca.crt')):
-            st = tls[key]
-            if st is None:
-                continue
-            conf.set_override(opt, fn, group='oslo_policy')
-            if st in ('ok', 'unreadable'):
-                fs.write(fn, '-----BEGIN PEM-----\n',
-                         mode=0o644 if st == 'ok' else 0o000)
-            cnt.hit('tls_%s_%s' % (key, st))
-        conf.set_override('remote_ssl_verify_server_crt',
-                          bool(tls['verify']), group='oslo_policy')
+        # the configuration in force for the call being judged; a step of
+        # a call sequence may change it on the live conf (set_override)
+        cur = {'timeout': d['timeout'], 'content_type': d['content_type'],
+               'tls': dict(d['tls'])}
+
+        def apply_options():
+            conf.set_override('remote_timeout', cur['timeout'],
+                              group='oslo_policy')
+            conf.set_override('remote_content_type', cur['content_type'],
+                              group='oslo_policy')
+            tls_ = cur['tls']
+            for key, opt, fn in (
+                    ('crt', 'remote_ssl_client_crt_file',
+                     TLS_DIR + '/c.crt'),
+                    ('key', 'remote_ssl_client_key_file',
+                     TLS_DIR + '/c.key'),
+                    ('ca', 'remote_ssl_ca_crt_file', TLS_DIR + '/ca.crt')):
+                st = tls_[key]
+                conf.set_override(opt, fn if st is not None else None,
+                                  group='oslo_policy')
+                if fs.exists(fn):
+                    fs.unlink(fn)
+                if st in ('ok', 'unreadable'):
+                    fs.write(fn, '-----BEGIN PEM-----\n',
+                             mode=0o644 if st == 'ok' else 0o000)
+                if st is not None:
+                    cnt.hit('tls_%s_%s' % (key, st))
+            conf.set_override('remote_ssl_verify_server_crt',
+                              bool(tls_['verify']), group='oslo_policy')
+        apply_options()
+        tls = cur['tls']
         rules = d['rules']
         e.set_rules(policy.Rules.from_dict(
             {k: rast.show(v) for k, v in rules.items()}), use_conf=False)
@@ -366,15 +426,20 @@ def run_decision(d, dg=None, cnt=None):
                         for k, v in snapshot.items()}
         val = {}
         expected_urls = {}
-        for tmpl, beh in d['peers'].items():
-            full = tmpl % snapshot
-            norm = requests.Request('POST', full).prepare().url
-            b = dict(beh)
-            b['body'] = beh['body'].encode('latin-1')
-            peer.script[norm] = b
-            expected_urls[norm] = tmpl
-            val[tmpl] = leaf_value(beh, tmpl.startswith('https'), tls,
-                                   d['timeout'])
+        behaviours = {u: dict(b) for u, b in d['peers'].items()}
+
+        def script_peers():
+            for tmpl, beh in behaviours.items():
+                full = tmpl % snapshot
+                norm = requests.Request('POST', full).prepare().url
+                b = dict(beh)
+                b['body'] = beh['body'].encode('latin-1')
+                peer.script[norm] = b
+                expected_urls[norm] = tmpl
+                val[tmpl] = leaf_value(beh, tmpl.startswith('https'),
+                                       cur['tls'], cur['timeout'])
+        script_peers()
+
         def one_call(creds, creds_snapshot, roles_now, step_no):
             try:
                 got = T if e.enforce(d['pname'], target, creds) else F
@@ -437,7 +502,7 @@ def run_decision(d, dg=None, cnt=None):
                 if isinstance(body, bytes):
                     body = body.decode('utf-8')
                 try:
-                    if d['content_type'] == CT_JSON:
+                    if cur['content_type'] == CT_JSON:
                         if not ct.startswith(CT_JSON):
                             return viol('request-encoding', content_type=ct), \
                                 simtime
@@ -473,29 +538,52 @@ def run_decision(d, dg=None, cnt=None):
                     return viol('target-mutated', key=k), simtime
             return None, simtime
 
-        if not d.get('ctx_steps'):
-            creds = copy.deepcopy(d['creds'])
-            return one_call(creds, copy.deepcopy(creds),
-                            set(creds['roles']), 0)
-        # one RequestContext object, re-scoped between several calls
-        from oslo_context import context as _ctx
-        ctx = _ctx.RequestContext(user_id='u1', overwrite=False)
-        cnt.hit('knob:context_object_reused')
+        seq = d.get('seq') or [{}]
+        ctx = None
+        if d.get('ctx_steps'):
+            # one RequestContext object, re-scoped between several calls
+            from oslo_context import context as _ctx
+            ctx = _ctx.RequestContext(user_id='u1', overwrite=False)
+            cnt.hit('knob:context_object_reused')
+            seq = [dict(s, ctx=c) for s, c in zip(
+                seq + [{}] * len(d['ctx_steps']), d['ctx_steps'])]
+        if len(seq) > 1:
+            cnt.hit('knob:several_calls_on_one_enforcer')
         total = 0.0
-        for step_no, step in enumerate(d['ctx_steps']):
+        for step_no, step in enumerate(seq):
             del peer.requests[:]
             peer.faults_fired.clear()
             peer.clock = 0.0
-            for k_, v_ in step.items():
-                setattr(ctx, k_, v_)
-            # what the library is documented to derive from a context
-            snap = dict(ctx.to_policy_values())
-            if snap.get('system_scope'):
-                snap['system'] = snap['system_scope']
-            v, st = one_call(ctx, snap, set(ctx.roles or []), step_no)
+            if step.get('options'):
+                for k_, v_ in step['options'].items():
+                    if k_ == 'tls':
+                        cur['tls'].update(v_)
+                    else:
+                        cur[k_] = v_
+                apply_options()
+                cnt.hit('fault:option_changed_between_calls')
+            if step.get('peers'):
+                for u_, b_ in step['peers'].items():
+                    if u_ in behaviours:
+                        behaviours[u_] = dict(b_)
+                cnt.hit('fault:peer_behaviour_changed_between_calls')
+            if step.get('options') or step.get('peers'):
+                script_peers()
+            if ctx is not None:
+                for k_, v_ in step.get('ctx', {}).items():
+                    setattr(ctx, k_, v_)
+                # what the library is documented to derive from a context
+                snap = dict(ctx.to_policy_values())
+                if snap.get('system_scope'):
+                    snap['system'] = snap['system_scope']
+                v, st = one_call(ctx, snap, set(ctx.roles or []), step_no)
+            else:
+                creds = copy.deepcopy(d['creds'])
+                v, st = one_call(creds, copy.deepcopy(creds),
+                                 set(creds['roles']), step_no)
             total += st
             if v is not None:
-                v['ctx_step'] = step_no
+                v['call_no'] = step_no
                 return v, total
         return None, total
     finally:
